@@ -724,6 +724,30 @@ def generate(template_path, repo, canary=False, contracts_dir=None, exclude=None
                     continue
                 raise LostAnchor("template %s line %d: unexpected `%s` inside //@body" % (template_path, j + 1, d))
             text, first_line, desc = extract_part(repo, spec)
+            if spec.get("part", "whole") == "whole":
+                # fingerprint: the wrapper's parameter list must be the real function's parameter list
+                real_sig, _, _ = extract_part(repo, dict(spec, part="sig"))
+                mine = None
+                for back in range(len(G.lines) - 1, -1, -1):
+                    if G.unit_of[back] != unit:
+                        break
+                    if re.search(r"\bfn\s+\w+\s*\(", G.lines[back]):
+                        mine = "\n".join(G.lines[back:])
+                        break
+
+                def plist(t):
+                    m = re.search(r"\bfn\s+\w+\s*\(", t)
+                    if not m:
+                        return None
+                    depth, k = 1, m.end()
+                    while k < len(t) and depth:
+                        depth += t[k] in "([{"
+                        depth -= t[k] in ")]}"
+                        k += 1
+                    return norm_ws(t[m.end():k - 1]).rstrip(",")
+                if mine is None or plist(mine) != plist(real_sig):
+                    raise LostAnchor("unit %s: parameter list of %s::%s changed: `%s` vs wrapper `%s`" % (
+                        unit, spec.get("impl", ""), spec["fn"], plist(real_sig), plist(mine) if mine else None))
             rw = [r for r in spec.get("rewrites", "").split(",") if r]
             text, log = apply_rewrites(text, rw, first_line)
             G.units[unit]["desc"].append(desc)
